@@ -11,6 +11,7 @@ import Yv.Model.LR0L
 import Yv.Model.SplitA
 import Yv.Model.ListingDrv
 import Yv.Model.Subst
+import Yv.Model.DP
 import Yv.Model.Drive
 import Yv.Model.XDrv
 import Yv.Model.Visitor
@@ -183,6 +184,25 @@ def process (out : IO.FS.Stream) (a : CaseAcc) : IO Unit := do
     match bad with
     | [] => out.putStrLn s!"V laOracle ok {want.length}"
     | (q, r, la) :: _ => out.putStrLn (s!"V laOracle FAIL {q} {r} " ++ nats la)
+    -- the DeRemer-Pennello stages of the VERIFIED model (C03_dp_exact), from the implementation's
+    -- automaton and the implementation's nullable flags; every stage is compared with the implementation's
+    let nl : List Nat := (List.range g.nSyms).filter fun i => a.nullable.getD i false
+    out.putStrLn s!"V nullExact {verdict (Y.DP.nullExactB yg g.nSyms nl)}"
+    out.putStrLn s!"V dpStartOK {verdict (Y.DP.dpStartOK yg ya)}"
+    match Y.DP.stagesWith yg ya nl with
+    | none => out.putStrLn "M DPNONE"
+    | some st =>
+      let rows := st.transRows
+      for i in [0:rows.length] do
+        let (q, isR, x, _) := rows.getD i (0, false, 0, 0)
+        out.putStrLn s!"M DPTR {i} {q} {if isR then 1 else 0} {x}"
+      for (i, _, _, d, r, f) in st.keyRows yg do
+        out.putStrLn s!"M DPKEY {i} | {nats d} | {nats r} | {nats f}"
+      let pr (l : List (Nat × Nat)) : String := String.join (l.map fun (x, y) => s!" {x}:{y}")
+      out.putStrLn s!"M DPREL reads{pr st.readsSorted}"
+      out.putStrLn s!"M DPREL includes{pr st.includesSorted}"
+      out.putStrLn s!"M DPREL lookback{pr st.lookbackSorted}"
+      out.putStrLn s!"X dp=laL {verdict (st.lines yg ya == want)}"
     -- the fast array-based fixpoint (used only for the mirror stage) must agree with the verified one
     match lalr g iau with
     | none => out.putStrLn "X coreLalr=laL FAIL unstable"
